@@ -68,7 +68,7 @@ func plantLeftovers(k *simunix.Kernel, c SeqCase) {
 func setup(c SeqCase) *simunix.Kernel {
 	k := simunix.New()
 	simunix.K = k
-	k.MkdirDurable("d1")
+	k.MkdirDurable("d")
 	k.MkdirDurable("d2")
 	if c.Dest == 1 {
 		k.WriteFileDurable(c.Where+"/f", oldData)
@@ -212,7 +212,7 @@ func callList(c SeqCase) []string {
 
 func seqAll(tier string, shard, nshards int, acc *ev.Acc) {
 	n := 0
-	for _, where := range []string{"d1", "d2"} {
+	for _, where := range []string{"d", "d2"} {
 		for dest := 0; dest <= 1; dest++ {
 			for lo := 0; lo <= 4; lo++ {
 				for di := range datas {
@@ -268,7 +268,7 @@ func seqAll(tier string, shard, nshards int, acc *ev.Acc) {
 
 type ConcCase struct {
 	Impl    string `json:"impl"`   // dir | mem
-	Prior   bool   `json:"prior"`  // d1/f present before
+	Prior   bool   `json:"prior"`  // d/f present before
 	Second  string `json:"second"` // "", "same", "othername", "otherdir"
 	Reader  int    `json:"reader"` // reader iterations
 	DataLen int    `json:"datalen"`
@@ -289,9 +289,9 @@ func concCase(c ConcCase, bound int, deadline time.Time) mcx.Case {
 		bd, bn := "", ""
 		switch c.Second {
 		case "same":
-			bd, bn = "d1", "f"
+			bd, bn = "d", "f"
 		case "othername":
-			bd, bn = "d1", "g"
+			bd, bn = "d", "g"
 		case "otherdir":
 			bd, bn = "d2", "f"
 		}
@@ -299,7 +299,7 @@ func concCase(c ConcCase, bound int, deadline time.Time) mcx.Case {
 		body := func() {
 			im = fsh.New(c.Impl, false)
 			if c.Prior {
-				im.AtomicCreate("d1", "f", append([]byte(nil), oldData...))
+				im.AtomicCreate("d", "f", append([]byte(nil), oldData...))
 				if im.K != nil {
 					simunix.Sync()
 				}
@@ -314,7 +314,7 @@ func concCase(c ConcCase, bound int, deadline time.Time) mcx.Case {
 					}
 				})
 			}
-			run(func() { im.AtomicCreate("d1", "f", append([]byte(nil), dataA...)) })
+			run(func() { im.AtomicCreate("d", "f", append([]byte(nil), dataA...)) })
 			if bd != "" {
 				run(func() { im.AtomicCreate(bd, bn, append([]byte(nil), dataB...)) })
 			}
@@ -324,7 +324,7 @@ func concCase(c ConcCase, bound int, deadline time.Time) mcx.Case {
 						var got []byte
 						exists := true
 						if p := libh.Try(func() {
-							h := im.Open("d1", "f")
+							h := im.Open("d", "f")
 							got = im.ReadAt(h, 0, 1<<20)
 							im.Close(h)
 						}); p != "" {
@@ -340,7 +340,7 @@ func concCase(c ConcCase, bound int, deadline time.Time) mcx.Case {
 			}
 			wg.Wait()
 			d, _ := im.Dump()
-			finalF1 = d["d1/f"]
+			finalF1 = d["d/f"]
 			if bd != "" {
 				finalOther, otherOK = d[bd+"/"+bn]
 			}
@@ -377,11 +377,11 @@ func concCase(c ConcCase, bound int, deadline time.Time) mcx.Case {
 				n := name(r)
 				ok := n == "A" || (n == "old" && c.Prior) || (n == "absent" && !c.Prior) || (n == "B" && c.Second == "same")
 				if !ok {
-					return "reader", fmt.Sprintf("reader iteration %d saw d1/f = %s (neither the previous state nor one caller's complete data)", i, n), outcome
+					return "reader", fmt.Sprintf("reader iteration %d saw d/f = %s (neither the previous state nor one caller's complete data)", i, n), outcome
 				}
 			}
 			if f := name(finalF1); !(f == "A" || (f == "B" && c.Second == "same")) {
-				return "final", "after all calls returned d1/f is " + f, outcome
+				return "final", "after all calls returned d/f is " + f, outcome
 			}
 			if c.Second == "othername" || c.Second == "otherdir" {
 				if !otherOK || name(finalOther) != "B" {
@@ -481,7 +481,7 @@ func main() {
 	acc.Counters["executions"] += acc.Counters["sequential_runs"] + acc.Counters["crash_images"]
 	os.Exit(acc.Done(ev.Finish{
 		Prop: "C13", Tier: *tier, Level: "model_checking", Start: start,
-		Rule:        fmt.Sprintf("DirFs.AtomicCreate over simunix: prior destination {absent,present} x leftover temp file {absent, empty, shorter, longer, same length} (planted at every plausible staging path) x data {0,1,3,5000 bytes} x directory; for each: visible state checked before every system call, durability of the inode checked at the instant the new content becomes visible, crash before every system call and after return x every post-crash image, every system call failing once with each of EIO, ENOSPC, EINVAL, EROFS, EDQUOT, EINTR, EBADF, every split of the write into <=3 short writes at boundary cuts. Concurrency: creator of d1/f + optional second creator {same name, other name, other dir} + reader (2 x Open/ReadAt/Close) on DirFs (system calls atomic) and MemFs (preemption before every statement), all schedules with <= %d preemptions", bound),
+		Rule:        fmt.Sprintf("DirFs.AtomicCreate over simunix: prior destination {absent,present} x leftover temp file {absent, empty, shorter, longer, same length} (planted at every plausible staging path) x data {0,1,3,5000 bytes} x directory; for each: visible state checked before every system call, durability of the inode checked at the instant the new content becomes visible, crash before every system call and after return x every post-crash image, every system call failing once with each of EIO, ENOSPC, EINVAL, EROFS, EDQUOT, EINTR, EBADF, every split of the write into <=3 short writes at boundary cuts. Concurrency: creator of d/f + optional second creator {same name, other name, other dir} + reader (2 x Open/ReadAt/Close) on DirFs (system calls atomic) and MemFs (preemption before every statement), all schedules with <= %d preemptions", bound),
 		Assumptions: []string{"crash model of simunix (ordered metadata journal, fsync commits it; unsynced page writes persist in any subset)", "errno and short-write injection are simulated", "system calls are atomic steps"},
 		Extra:       mcx.Extra(acc, map[string]any{"preemption_bound": bound}),
 	}))
